@@ -103,6 +103,38 @@ class ExcAnalysis:
                     return h
         return None
 
+    def _abstract_hook(self, func):
+        """a method that only says "define me in a derived class" (body = raise NotImplementedError) and that every
+        class which can be instantiated overrides: the classes that would inherit it are never named outside class
+        headers and isinstance tests, so no object of them exists"""
+        if func.cls is None:
+            return False
+        body = func.body()
+        if len(body) != 1 or not isinstance(body[0], ast.Raise):
+            return False
+        cache = self.__dict__.setdefault('_named_classes', None)
+        if cache is None:
+            cache = set()
+            for mod in self.m.modules.values():
+                for n in ast.walk(mod.tree):
+                    if isinstance(n, ast.Name) and isinstance(n.ctx, ast.Load) and n.id in self.m.classes:
+                        p_ = parent(n)
+                        if isinstance(p_, ast.ClassDef) and n in p_.bases:
+                            continue
+                        if isinstance(p_, ast.Call) and isinstance(p_.func, ast.Name) and p_.func.id in ('isinstance', 'issubclass') \
+                           and n in p_.args[1:]:
+                            continue
+                        if isinstance(p_, ast.Tuple) and isinstance(parent(p_), ast.Call) and \
+                           isinstance(parent(p_).func, ast.Name) and parent(p_).func.id in ('isinstance', 'issubclass'):
+                            continue
+                        cache.add(n.id)
+            self._named_classes = cache
+        for k in [func.cls] + list(func.cls.subclasses):
+            g = self.m.resolve_method(k.name, func.name)
+            if g is not None and g.qual == func.qual and k.name in cache:
+                return False        # a class that may be instantiated inherits the placeholder
+        return True
+
     # ---------------------------------------------------------------- local sites
     def sites_of(self, func):
         if func.qual in self.local_sites:
@@ -122,6 +154,8 @@ class ExcAnalysis:
                         exc = 'Exception'     # re-raise of a caught instance
                 # protocol idiom: __getattr__ raising AttributeError
                 if func.name == '__getattr__' and exc == 'AttributeError':
+                    continue
+                if exc == 'NotImplementedError' and self._abstract_hook(func):
                     continue
                 msg = ''
                 if isinstance(n.exc, ast.Call) and n.exc.args:
@@ -212,25 +246,77 @@ class ExcAnalysis:
         return False
 
     # ---------------------------------------------------------------- None-ness pruning
-    def none_params(self, call, callee, kind):
+    def _dict_keys(self, caller, name):
+        """the keys a local dict of `caller` can hold: every binding is a dict display / dict(k=...) / a conditional
+        expression of such, every other store is NAME['k'] = v; None when it cannot be told"""
+        keys = set()
+        nb = 0
+        for n in walk_no_nested(caller.node):
+            if isinstance(n, ast.Name) and n.id == name and isinstance(n.ctx, ast.Store):
+                st = parent(n)
+                if not (isinstance(st, ast.Assign) and len(st.targets) == 1 and st.targets[0] is n):
+                    return None
+                vals = [st.value]
+                while vals:
+                    v = vals.pop()
+                    if isinstance(v, ast.IfExp):
+                        vals += [v.body, v.orelse]
+                    elif isinstance(v, ast.Dict) and all(isinstance(k_, ast.Constant) and isinstance(k_.value, str) for k_ in v.keys):
+                        keys |= {k_.value for k_ in v.keys}
+                    elif isinstance(v, ast.Call) and isinstance(v.func, ast.Name) and v.func.id == 'dict' and not v.args and \
+                            all(k_.arg is not None for k_ in v.keywords):
+                        keys |= {k_.arg for k_ in v.keywords}
+                    else:
+                        return None
+                nb += 1
+            elif isinstance(n, ast.Name) and n.id == name and isinstance(n.ctx, ast.Load):
+                st = parent(n)
+                if isinstance(st, ast.Subscript) and st.value is n and isinstance(st.ctx, ast.Store):
+                    if isinstance(st.slice, ast.Constant) and isinstance(st.slice.value, str):
+                        keys.add(st.slice.value)
+                    else:
+                        return None
+                elif isinstance(st, ast.Attribute) and st.attr in ('update', 'setdefault', 'pop', 'clear', 'popitem'):
+                    return None
+        if name in caller.all_params or nb == 0:
+            return None
+        return keys
+
+    def none_params(self, call, callee, kind, caller=None, caller_none=frozenset()):
         """parameters of callee that are certainly None for this call"""
         out = set()
         if kind not in ('call', 'ctor') or not isinstance(call, ast.Call):
             return frozenset()
         params = callee.bound_params()
-        if any(isinstance(a, ast.Starred) for a in call.args) or any(k.arg is None for k in call.keywords):
+        if any(isinstance(a, ast.Starred) for a in call.args):
             return frozenset()
+        star_keys = set()
+        for k in call.keywords:
+            if k.arg is None:
+                # **d: only the keys the local dict can hold may be given by it
+                ks = self._dict_keys(caller, k.value.id) if caller is not None and isinstance(k.value, ast.Name) else None
+                if ks is None:
+                    return frozenset()
+                star_keys |= ks
         given = {}
         for i, a in enumerate(call.args):
             if i < len(params):
                 given[params[i]] = a
         for k in call.keywords:
-            given[k.arg] = k.value
+            if k.arg is not None:
+                given[k.arg] = k.value
+        trusted = set(caller_none)
+        if caller is not None and trusted:
+            trusted -= {n.id for n in walk_no_nested(caller.node) if isinstance(n, ast.Name) and isinstance(n.ctx, ast.Store)}
         defaults = callee.defaults()
         for p in callee.all_params:
+            if p in star_keys:
+                continue
             if p in given:
                 if isinstance(given[p], ast.Constant) and given[p].value is None:
                     out.add(p)
+                elif isinstance(given[p], ast.Name) and given[p].id in trusted:
+                    out.add(p)      # a parameter of the caller that is None here, handed on unchanged
             elif p in defaults and isinstance(defaults[p], ast.Constant) and defaults[p].value is None:
                 out.add(p)
         return frozenset(out)
@@ -312,7 +398,7 @@ class ExcAnalysis:
             callee = ed.callee
             if callee.qual in self.skip_callees:
                 continue
-            cn = self.none_params(ed.node, callee, ed.kind)
+            cn = self.none_params(ed.node, callee, ed.kind, caller=func, caller_none=none)
             for (s, path) in self.escaping(callee, cn, depth + 1):
                 if self.caught_locally(func, ed.node, s.exc):
                     continue
